@@ -707,39 +707,70 @@ Proof. unfold Rleb. destruct (Rle_dec a b); reflexivity. Qed.
 Lemma clamp_id x lo hi : lo <= x <= hi -> Rmin (Rmax x lo) hi = x.
 Proof. intros. rewrite Rmax_left by lra. rewrite Rmin_left by lra. reflexivity. Qed.
 
-(* the exact shape of the translated function, for ALL inputs whose solimp needs no clamping *)
+(* the boolean test of the source and the effective solref *)
+Lemma mixed_test s0 s1 :
+  (if (Rltb 0 s0 && Rleb s1 0) || (Rleb s0 0 && Rltb 0 s1) then (1 / 50, 1) else (s0, s1))
+  = (eff_ref0 s0 s1, eff_ref1 s0 s1).
+Proof.
+  unfold eff_ref0, eff_ref1, Rltb, Rleb.
+  destruct (Rlt_dec 0 s0), (Rle_dec s1 0), (Rle_dec s0 0), (Rlt_dec 0 s1); simpl; try reflexivity; lra.
+Qed.
+
+(* the exact shape of the translated function, for ALL solref / width (solimp entries inside their clamps) *)
 Lemma efc_row_shape flags worldid h efcid pos_aref pos_imp iw s0 s1 dmin dmax width mid p margin vel fl type id :
   MINIMP <= dmin <= MAXIMP -> MINIMP <= dmax <= MAXIMP -> MINIMP <= mid <= MAXIMP -> 1 <= p ->
   @_efc_row_pure R ScalarR flags worldid h efcid pos_aref pos_imp iw [s0; s1] [dmin; dmax; width; mid; p] margin vel fl type id
-  = row_doc (k_code flags h s0 s1 dmax) (b_code flags h s0 s1 dmax) (imp_code dmin dmax (Rmax MINVAL width) mid p pos_imp)
+  = row_doc (k_code flags h s0 s1 dmax) (b_code flags h s0 s1 dmax) (imp_code dmin dmax width mid p pos_imp)
             iw pos_aref margin vel fl type id.
 Proof.
   intros Hdmin Hdmax Hmid Hp.
   unfold _efc_row_pure, row_doc, k_code, b_code, imp_code, imp_doc, imp_y_doc, clampR, tc_eff, refsafe_on.
   unfold MINIMP, MAXIMP, MINVAL in *.
   cbv [vget nth Z.to_nat Pos.to_nat Pos.iter_op Nat.add]. sR. cbv [spow ScalarR].
+  change (IZR 1 / IZR 50) with (1 / 50). 
+  rewrite (mixed_test s0 s1). cbv [fst snd].
+  set (r0 := eff_ref0 s0 s1). set (r1 := eff_ref1 s0 s1).
   rewrite !smax_R, !smin_R, !ifltb, !ifleb.
   rewrite (clamp_id dmin) by lra. rewrite (clamp_id dmax) by lra. rewrite (clamp_id mid) by lra.
   rewrite (Rmax_right 1 p) by lra.
   set (x := Rabs pos_imp / Rmax (1 / 1000000000000000) width).
   replace (1 / Rpower mid (p - 1) * Rpower x p) with (Rpower x p / Rpower mid (p - 1)) by (unfold Rdiv; ring).
   replace (1 / Rpower (1 - mid) (p - 1) * Rpower (1 - x) p) with (Rpower (1 - x) p / Rpower (1 - mid) (p - 1)) by (unfold Rdiv; ring).
-  reflexivity.
+  destruct (Rle_dec width (1 / 1000000000000000)); reflexivity.
 Qed.
 
-Lemma k_code_standard flags h s0 s1 dmax :
-  0 < s0 -> k_code flags h s0 s1 dmax = k_standard dmax (tc_eff flags s0 h) s1.
-Proof. intros. unfold k_code, k_standard. destruct (Rle_dec s0 0); [lra|reflexivity]. Qed.
-Lemma b_code_standard flags h s0 s1 dmax :
-  0 < s1 -> b_code flags h s0 s1 dmax = b_standard dmax (tc_eff flags s0 h).
-Proof. intros. unfold b_code, b_standard. destruct (Rle_dec s1 0); [lra|reflexivity]. Qed.
-Lemma k_code_direct flags h s0 s1 dmax : s0 <= 0 -> k_code flags h s0 s1 dmax = k_direct dmax s0.
-Proof. intros. unfold k_code, k_direct. destruct (Rle_dec s0 0); [reflexivity|lra]. Qed.
-Lemma b_code_direct flags h s0 s1 dmax : s1 <= 0 -> b_code flags h s0 s1 dmax = b_direct dmax s1.
-Proof. intros. unfold b_code, b_direct. destruct (Rle_dec s1 0); [reflexivity|lra]. Qed.
+Lemma eff_ref_standard s0 s1 : 0 < s0 -> 0 < s1 -> eff_ref0 s0 s1 = s0 /\ eff_ref1 s0 s1 = s1.
+Proof. intros. unfold eff_ref0, eff_ref1. destruct (Rlt_dec 0 s0), (Rle_dec s1 0), (Rlt_dec 0 s1); split; try reflexivity; lra. Qed.
+Lemma eff_ref_direct s0 s1 : s0 <= 0 -> s1 <= 0 -> eff_ref0 s0 s1 = s0 /\ eff_ref1 s0 s1 = s1.
+Proof. intros. unfold eff_ref0, eff_ref1. destruct (Rlt_dec 0 s0), (Rle_dec s1 0), (Rlt_dec 0 s1); split; try reflexivity; lra. Qed.
+Lemma eff_ref_mixed s0 s1 : mixed_solref s0 s1 -> eff_ref0 s0 s1 = 1 / 50 /\ eff_ref1 s0 s1 = 1.
+Proof. intros [[? ?]|[? ?]]; unfold eff_ref0, eff_ref1; destruct (Rlt_dec 0 s0), (Rle_dec s1 0), (Rlt_dec 0 s1); split; try reflexivity; lra. Qed.
 
-Lemma imp_code_sat dmin dmax width mid p r : 1 < Rabs r / width -> imp_code dmin dmax width mid p r = dmax.
-Proof. intros. unfold imp_code. cbv zeta. destruct (Rlt_dec 1 (Rabs r / width)); [reflexivity|lra]. Qed.
+Lemma kb_code_pos flags h s0 s1 dmax r0 r1 :
+  eff_ref0 s0 s1 = r0 -> eff_ref1 s0 s1 = r1 -> 0 < r0 -> 0 < r1 ->
+  k_code flags h s0 s1 dmax = k_standard dmax (tc_eff flags r0 h) r1 /\
+  b_code flags h s0 s1 dmax = b_standard dmax (tc_eff flags r0 h).
+Proof.
+  intros E0 E1 H0 H1. unfold k_code, b_code, k_standard, b_standard. cbv zeta. rewrite E0, E1.
+  destruct (Rle_dec r0 0); [lra|]. destruct (Rle_dec r1 0); [lra|]. split; reflexivity.
+Qed.
+Lemma kb_code_direct flags h s0 s1 dmax :
+  s0 <= 0 -> s1 <= 0 ->
+  k_code flags h s0 s1 dmax = k_direct dmax s0 /\ b_code flags h s0 s1 dmax = b_direct dmax s1.
+Proof.
+  intros H0 H1. destruct (eff_ref_direct s0 s1 H0 H1) as [E0 E1].
+  unfold k_code, b_code, k_direct, b_direct. cbv zeta. rewrite E0, E1.
+  destruct (Rle_dec s0 0); [|lra]. destruct (Rle_dec s1 0); [|lra]. split; reflexivity.
+Qed.
+
+Lemma imp_code_flat dmin dmax width mid p r : width <= MINVAL -> imp_code dmin dmax width mid p r = (dmin + dmax) / 2.
+Proof. intros. unfold imp_code. destruct (Rle_dec width MINVAL); [lra|contradiction]. Qed.
+Lemma imp_code_sat dmin dmax width mid p r :
+  MINVAL < width -> 1 < Rabs r / width -> imp_code dmin dmax width mid p r = dmax.
+Proof.
+  intros Hw Hx. unfold imp_code. destruct (Rle_dec width MINVAL); [lra|]. cbv zeta.
+  rewrite (Rmax_right MINVAL width) by lra. destruct (Rlt_dec 1 (Rabs r / width)); [reflexivity|lra].
+Qed.
 
 (* x^p / m^(p-1) <= x for 0 < x <= m, p >= 1 *)
 Lemma pow_ratio_le x m p : 0 < x -> x <= m -> 1 <= p -> 0 < Rpower x p / Rpower m (p - 1) <= x.
@@ -764,73 +795,102 @@ Proof.
   - destruct (pow_ratio_le (1 - x) (1 - mid) p) as [A B]; try lra.
 Qed.
 
+(* transition zone, for EITHER order of dmin and dmax: the documented curve, unclamped *)
 Lemma imp_code_mid dmin dmax width mid p r :
-  dmin <= dmax -> MINIMP <= mid <= MAXIMP -> 1 <= p -> 0 < Rabs r / width < 1 ->
+  MINVAL < width -> MINIMP <= mid <= MAXIMP -> 1 <= p -> 0 < Rabs r / width < 1 ->
   imp_code dmin dmax width mid p r = imp_doc dmin dmax width mid p r /\
-  dmin <= imp_doc dmin dmax width mid p r <= dmax.
+  Rmin dmin dmax <= imp_doc dmin dmax width mid p r <= Rmax dmin dmax.
 Proof.
-  unfold MINIMP, MAXIMP. intros Hd Hm Hp Hx.
-  assert (B : dmin <= imp_doc dmin dmax width mid p r <= dmax).
-  { unfold imp_doc. destruct (imp_y_bounds mid p (Rabs r / width)) as [A1 A2]; try lra. nra. }
+  unfold MINIMP, MAXIMP. intros Hw Hm Hp Hx.
+  assert (B : Rmin dmin dmax <= imp_doc dmin dmax width mid p r <= Rmax dmin dmax).
+  { unfold imp_doc. destruct (imp_y_bounds mid p (Rabs r / width)) as [A1 A2]; try lra.
+    unfold Rmin, Rmax. destruct (Rle_dec dmin dmax); nra. }
   split; [|exact B].
-  unfold imp_code. cbv zeta. destruct (Rlt_dec 1 (Rabs r / width)); [lra|].
+  unfold imp_code. destruct (Rle_dec width MINVAL); [lra|]. cbv zeta.
+  rewrite (Rmax_right MINVAL width) by lra.
+  destruct (Rlt_dec 1 (Rabs r / width)); [lra|].
   unfold clampR. apply clamp_id. exact B.
 Qed.
 
 Theorem efc_row_kbi :
   forall flags worldid h efcid pos_aref pos_imp iw s0 s1 dmin dmax width mid p margin vel fl type id,
-    MINIMP <= dmin -> dmin <= dmax -> dmax <= MAXIMP -> MINIMP <= mid <= MAXIMP -> MINVAL <= width -> 1 <= p ->
+    MINIMP <= dmin <= MAXIMP -> MINIMP <= dmax <= MAXIMP -> MINIMP <= mid <= MAXIMP -> 1 <= p ->
     forall imp k b,
-      (0 < Rabs pos_imp / width < 1 /\ imp = imp_doc dmin dmax width mid p pos_imp \/
-       1 < Rabs pos_imp / width /\ imp = dmax) ->
+      (width <= MINVAL /\ imp = (dmin + dmax) / 2 \/
+       MINVAL < width /\ 0 < Rabs pos_imp / width < 1 /\ imp = imp_doc dmin dmax width mid p pos_imp \/
+       MINVAL < width /\ 1 < Rabs pos_imp / width /\ imp = dmax) ->
       (0 < s0 /\ 0 < s1 /\ k = k_standard dmax (tc_eff flags s0 h) s1 /\ b = b_standard dmax (tc_eff flags s0 h) \/
-       s0 <= 0 /\ s1 <= 0 /\ k = k_direct dmax s0 /\ b = b_direct dmax s1) ->
+       s0 <= 0 /\ s1 <= 0 /\ k = k_direct dmax s0 /\ b = b_direct dmax s1 \/
+       mixed_solref s0 s1 /\ k = k_standard dmax (tc_eff flags (1 / 50) h) 1 /\ b = b_standard dmax (tc_eff flags (1 / 50) h)) ->
       @_efc_row_pure R ScalarR flags worldid h efcid pos_aref pos_imp iw [s0; s1] [dmin; dmax; width; mid; p] margin vel fl type id
-      = row_doc k b imp iw pos_aref margin vel fl type id /\ dmin <= imp <= dmax.
+      = row_doc k b imp iw pos_aref margin vel fl type id /\ Rmin dmin dmax <= imp <= Rmax dmin dmax.
 Proof.
   intros flags worldid h efcid pos_aref pos_imp iw s0 s1 dmin dmax width mid p margin vel fl type id
-         H1 H2 H3 Hm Hw Hp imp k b Himp Hkb.
-  rewrite efc_row_shape by (auto; lra).
-  rewrite (Rmax_right MINVAL width) by lra.
+         H1 H2 Hm Hp imp k b Himp Hkb.
+  rewrite efc_row_shape by auto.
   assert (Ek : k_code flags h s0 s1 dmax = k /\ b_code flags h s0 s1 dmax = b).
-  { destruct Hkb as [(A & B & -> & ->)|(A & B & -> & ->)].
-    - rewrite k_code_standard, b_code_standard by auto. auto.
-    - rewrite k_code_direct, b_code_direct by auto. auto. }
+  { destruct Hkb as [(A & B & -> & ->)|[(A & B & -> & ->)|(M & -> & ->)]].
+    - destruct (eff_ref_standard s0 s1 A B) as [E0 E1]. apply (kb_code_pos flags h s0 s1 dmax s0 s1); auto.
+    - apply kb_code_direct; auto.
+    - destruct (eff_ref_mixed s0 s1 M) as [E0 E1]. apply (kb_code_pos flags h s0 s1 dmax (1 / 50) 1); auto; lra. }
   destruct Ek as [-> ->].
-  destruct Himp as [[Hx ->]|[Hx ->]].
-  - destruct (imp_code_mid dmin dmax width mid p pos_imp H2 Hm Hp Hx) as [-> B]. split; [reflexivity|exact B].
-  - rewrite imp_code_sat by auto. split; [reflexivity|lra].
-Qed.
-
-(* deviations from MuJoCo C, stated on the translated function *)
-(* (1) mixed solref (one entry positive, the other not): MuJoCo C replaces the pair by the default
-   (0.02, 1); the code combines the standard formula for one coefficient with the direct one for
-   the other *)
-Theorem efc_row_mixed_solref_not_default_refuted :
-  exists flags h s0 s1 dmax, mixed_solref s0 s1 /\ MINIMP <= dmax <= MAXIMP /\
-    b_code flags h s0 s1 dmax <> b_code flags h (2 / 100) 1 dmax.
-Proof.
-  exists 4096%Z, (1 / 1000), (2 / 100), (-1), (1 / 2). unfold mixed_solref, MINIMP, MAXIMP.
-  split; [left; lra|]. split; [lra|].
-  unfold b_code, tc_eff, refsafe_on. simpl.
-  destruct (Rle_dec (-1) 0); [|lra]. destruct (Rle_dec 1 0); [lra|]. lra.
-Qed.
-
-(* (2) width <= mjMINVAL with dmin <> dmax: MuJoCo C returns the mean impedance ("flat function");
-   the code floors width at MJ_MINVAL, so any |pos| > width saturates at dmax *)
-Theorem efc_row_zero_width_not_mean_refuted :
-  exists dmin dmax mid p r, MINIMP <= dmin /\ dmin < dmax /\ dmax <= MAXIMP /\
-    imp_code dmin dmax (Rmax MINVAL 0) mid p r = dmax /\ dmax <> (dmin + dmax) / 2.
-Proof.
-  exists (1 / 2), (9 / 10), (1 / 2), 2, 1. unfold MINIMP, MAXIMP, MINVAL.
-  split; [lra|]. split; [lra|]. split; [lra|]. split; [|lra].
-  apply imp_code_sat. rewrite Rmax_left by lra. rewrite Rabs_R1. lra.
+  assert (Hb : Rmin dmin dmax <= dmax <= Rmax dmin dmax) by (split; [apply Rmin_r|apply Rmax_r]).
+  destruct Himp as [[Hw ->]|[(Hw & Hx & ->)|(Hw & Hx & ->)]].
+  - rewrite imp_code_flat by auto. split; [reflexivity|].
+    unfold Rmin, Rmax. destruct (Rle_dec dmin dmax); lra.
+  - destruct (imp_code_mid dmin dmax width mid p pos_imp Hw Hm Hp Hx) as [-> B]. split; [reflexivity|exact B].
+  - rewrite imp_code_sat by auto. split; [reflexivity|exact Hb].
 Qed.
 
 Example efc_row_kbi_hyps_satisfiable :
-  MINIMP <= 9 / 10 /\ 9 / 10 <= 95 / 100 /\ 95 / 100 <= MAXIMP /\ MINIMP <= 1 / 2 <= MAXIMP /\ MINVAL <= 1 / 1000 /\ 1 <= 2 /\
-  0 < Rabs (1 / 2000) / (1 / 1000) < 1.
-Proof. unfold MINIMP, MAXIMP, MINVAL. rewrite Rabs_pos_eq by lra. repeat split; lra. Qed.
+  MINIMP <= 95 / 100 <= MAXIMP /\ MINIMP <= 1 / 2 <= MAXIMP /\ 1 <= 2 /\ MINVAL < 1 / 1000 /\
+  0 < Rabs (1 / 2000) / (1 / 1000) < 1 /\ mixed_solref (2 / 100) (-1) /\ 0 <= MINVAL.
+Proof. unfold MINIMP, MAXIMP, MINVAL, mixed_solref. rewrite Rabs_pos_eq by lra. repeat split; lra. Qed.
+
+(* ---- DOCUMENTATION: the three deviations of the code BEFORE commit 56e7974, about the old definitions ---- *)
+Theorem pre_fix_mixed_solref_not_default :
+  exists flags h s0 s1 dmax, mixed_solref s0 s1 /\ MINIMP <= dmax <= MAXIMP /\
+    b_code_old flags h s0 s1 dmax <> b_code_old flags h (2 / 100) 1 dmax /\
+    b_code flags h s0 s1 dmax = b_code flags h (2 / 100) 1 dmax.
+Proof.
+  exists 4096%Z, (1 / 1000), (2 / 100), (-1), (1 / 2). unfold mixed_solref, MINIMP, MAXIMP.
+  split; [left; lra|]. split; [lra|]. split.
+  - unfold b_code_old, tc_eff, refsafe_on. simpl.
+    destruct (Rle_dec (-1) 0); [|lra]. destruct (Rle_dec 1 0); [lra|]. lra.
+  - unfold b_code. cbv zeta.
+    destruct (eff_ref_mixed (2 / 100) (-1)) as [-> ->]; [left; lra|].
+    destruct (eff_ref_standard (2 / 100) 1) as [-> ->]; try lra.
+    unfold tc_eff, refsafe_on. simpl.
+    destruct (Rle_dec 1 0); [lra|]. lra.
+Qed.
+
+Theorem pre_fix_zero_width_not_mean :
+  exists dmin dmax mid p r, MINIMP <= dmin /\ dmin < dmax /\ dmax <= MAXIMP /\
+    imp_code_old dmin dmax (Rmax MINVAL 0) mid p r = dmax /\ dmax <> (dmin + dmax) / 2 /\
+    imp_code dmin dmax 0 mid p r = (dmin + dmax) / 2.
+Proof.
+  exists (1 / 2), (9 / 10), (1 / 2), 2, 1. unfold MINIMP, MAXIMP.
+  split; [lra|]. split; [lra|]. split; [lra|]. split; [|split; [lra|]].
+  - unfold imp_code_old, MINVAL. cbv zeta. rewrite Rmax_left by lra. rewrite Rabs_R1.
+    destruct (Rlt_dec 1 (1 / (1 / 1000000000000000))); [reflexivity|lra].
+  - apply imp_code_flat. unfold MINVAL. lra.
+Qed.
+
+Theorem pre_fix_dmin_above_dmax_clamped :
+  forall dmin dmax width mid p r,
+    dmax < dmin -> MINVAL < width -> MINIMP <= mid <= MAXIMP -> 1 <= p -> 0 < Rabs r / width < 1 ->
+    imp_code_old dmin dmax width mid p r = dmax /\ dmax < imp_doc dmin dmax width mid p r /\
+    imp_code dmin dmax width mid p r = imp_doc dmin dmax width mid p r.
+Proof.
+  intros dmin dmax width mid p r Hd Hw Hm Hp Hx.
+  assert (Hm' : 0 < mid < 1) by (unfold MINIMP, MAXIMP in Hm; lra).
+  destruct (imp_y_bounds mid p (Rabs r / width) Hm' Hp Hx) as [Y0 Y1].
+  assert (B : dmax < imp_doc dmin dmax width mid p r) by (unfold imp_doc; nra).
+  split; [|split; [exact B|]].
+  - unfold imp_code_old. cbv zeta. destruct (Rlt_dec 1 (Rabs r / width)); [lra|].
+    unfold clampR. apply Rmin_right. apply Rle_trans with dmin; [lra|apply Rmax_r].
+  - apply imp_code_mid; auto.
+Qed.
 
 (* ================= the regenerated skeleton satisfies the hypotheses ================= *)
 Local Open Scope Z_scope.
@@ -869,24 +929,3 @@ Proof.
   apply andb_prop in S. destruct S as [_ S]. rewrite forallb_forall in S. specialize (S _ Ht). lia.
 Qed.
 
-(* (3) dmin > dmax: MuJoCo C evaluates dmin + y(x) (dmax - dmin) unclamped (a decreasing impedance,
-   strictly above dmax inside the transition zone); the code's wp.clamp(imp, dmin, dmax) = min(max(imp,
-   dmin), dmax) returns dmax for every x *)
-Local Open Scope R_scope.
-Theorem efc_row_dmin_above_dmax_refuted :
-  forall dmin dmax width mid p r,
-    dmax < dmin -> 0 < mid < 1 -> 1 <= p -> 0 < Rabs r / width < 1 ->
-    imp_code dmin dmax width mid p r = dmax /\ dmax < imp_doc dmin dmax width mid p r.
-Proof.
-  intros dmin dmax width mid p r Hd Hm Hp Hx.
-  destruct (imp_y_bounds mid p (Rabs r / width) Hm Hp Hx) as [Y0 Y1].
-  assert (B : dmax < imp_doc dmin dmax width mid p r) by (unfold imp_doc; nra).
-  split; [|exact B].
-  unfold imp_code. cbv zeta. destruct (Rlt_dec 1 (Rabs r / width)); [lra|].
-  unfold clampR. apply Rmin_right.
-  apply Rle_trans with dmin; [lra|apply Rmax_r].
-Qed.
-
-Example efc_row_dmin_above_dmax_hyps_satisfiable :
-  5 / 10 < 95 / 100 /\ 0 < 1 / 2 < 1 /\ 1 <= 2 /\ 0 < Rabs (3 / 10) / (5 / 10) < 1.
-Proof. rewrite Rabs_pos_eq by lra. repeat split; lra. Qed.
